@@ -76,7 +76,7 @@ fn to_result(gt: &Gt) -> genotype::Result {
     }
 }
 
-fn build_reader(cs: &CallSet, records: &[Record], map: &MapSpec, project: Option<&[usize]>) -> Result<site::Reader, Failure> {
+pub(crate) fn build_reader(cs: &CallSet, records: &[Record], map: &MapSpec, project: Option<&[usize]>) -> Result<site::Reader, Failure> {
     let mem = MemReader {
         samples: cs.samples.iter().map(Sample::from).collect(),
         records: records.iter().map(|r| (cs.contigs[r.contig].clone(), r.pos as usize, (0..cs.samples.len()).map(|i| to_result(&r.gt_of(i))).collect())).collect(),
@@ -200,6 +200,45 @@ fn strategy(max_records: usize) -> impl Strategy<Value = Case> {
         make_selected_diploid(&mut cs, &selected);
         let m = if project { Some(resolve_targets(&cs, &map, &td)) } else { None };
         Case { cs, map, m, perm_draws }
+    })
+}
+
+/// The histories of `strategy`, over 5..8 populations (the listed samples one per label first, the
+/// rest dealt out by the draws), projected in two cases out of three.
+fn many_populations_strategy() -> impl Strategy<Value = Case> {
+    strategy(14).prop_map(|mut case| {
+        let n = case.cs.samples.len();
+        if n < 5 {
+            return case;
+        }
+        let d = &case.perm_draws;
+        let k = 5 + pick_idx(d[0], n.min(8) - 4);
+        let order = permutation(n, &d[1..]);
+        let entries: Vec<(usize, Option<usize>)> = order.iter().enumerate().map(|(i, s)| (*s, Some(if i < k { i } else { pick_idx(d[(2 + i) % d.len()], k) }))).collect();
+        let map = MapSpec { entries, labels: (0..k).map(|j| format!("P{j}")).collect(), as_file: false };
+        let selected = vec![true; n];
+        force_record_classes(&mut case.cs, &selected);
+        make_selected_diploid(&mut case.cs, &selected);
+        let sizes = map.pop_sizes();
+        let totals = crate::props::c02::called_totals(&case.cs, &map);
+        case.m = if d[3] % 3 == 0 {
+            None
+        } else {
+            let anchor = if totals.is_empty() { None } else { Some(totals[pick_idx(d[4], totals.len())].clone()) };
+            Some(
+                (0..k)
+                    .map(|j| match d[(5 + j) % d.len()] % 6 {
+                        0 => 0,
+                        1 => 1,
+                        2 => 2 * sizes[j],
+                        3 => sizes[j],
+                        _ => anchor.as_ref().map(|t| t[j]).unwrap_or(2 * sizes[j]).min(2 * sizes[j]),
+                    })
+                    .collect(),
+            )
+        };
+        case.map = map;
+        case
     })
 }
 
@@ -432,6 +471,21 @@ pub fn check(ctx: &Ctx) -> Check {
             cases: ctx.tier.pick(40_000, 2_000_000),
             strategy: Box::new(|| strategy(25).boxed()),
             eval: Box::new(eval_lib),
+        }),
+        Box::new(RandomPart {
+            name: "lib-histories-many-populations",
+            rule: "the same histories (0..14 records, 5..8 samples) over 5..8 populations, every listed sample its own label first and the rest dealt out, targets per population from {0, 1, n_j, 2n_j, the called total of an anchor record}, unprojected in one case out of three: anything the site reader or the projection keeps per population (keys packed into a machine word, fixed-size per-axis tables) must still be reset between records; the same three relations as lib-histories; non-trivial by the same rule and >= 5 populations",
+            cases: ctx.tier.pick(4_000, 150_000),
+            strategy: Box::new(|| many_populations_strategy().boxed()),
+            eval: Box::new(|ctx: &Ctx, case: &Case| {
+                let mut pass = eval_lib(ctx, case)?;
+                let pops = case.map.pop_sizes().len();
+                if pops < 5 {
+                    pass.nontrivial = false;
+                }
+                pass.add_label(format!("populations={pops}"));
+                Ok(pass)
+            }),
         }),
         Box::new(RandomPart {
             name: "cli-concat-permute",
